@@ -34,7 +34,8 @@ def replay(case):
     t = case['task']; inp = case['inputs']; kind = t['kind']
     problems = []
     if kind == 'prog':
-        return {'violates': True, 'observed': inp, 'key': 'prog:' + str(inp.get('row', ''))[:60]}
+        from . import c19_prog
+        return c19_prog.replay(case)
     try:
         if kind in ('flat', 'order'):
             ne = t['ne']; L = inp['len']
